@@ -401,6 +401,37 @@ func normalize(pk *packages.Package) {
 			}
 			return true
 		})
+		// if v := E; v {  /  if v := E; !v {   ->  if E {  /  if !(E) {    (v used only there, E free of calls)
+		ast.Inspect(f, func(n ast.Node) bool {
+			is, ok := n.(*ast.IfStmt)
+			if !ok || is.Init == nil {
+				return true
+			}
+			as, ok := is.Init.(*ast.AssignStmt)
+			if !ok || as.Tok != token.DEFINE || len(as.Lhs) != 1 || len(as.Rhs) != 1 || !pureExpr(as.Rhs[0]) {
+				return true
+			}
+			v, ok := as.Lhs[0].(*ast.Ident)
+			if !ok || info.Defs[v] == nil || useCount[info.Defs[v]] != 1 {
+				return true
+			}
+			obj := info.Defs[v]
+			switch c := is.Cond.(type) {
+			case *ast.Ident:
+				if info.Uses[c] == obj {
+					is.Cond, is.Init = as.Rhs[0], nil
+				}
+			case *ast.UnaryExpr:
+				if id, ok := c.X.(*ast.Ident); ok && c.Op == token.NOT && info.Uses[id] == obj {
+					c.X = &ast.ParenExpr{X: as.Rhs[0]}
+					info.Types[c.X] = info.Types[as.Rhs[0]]
+					is.Init = nil
+				}
+			}
+			return true
+		})
+		// the substitutions above may have produced `!(A && B)`: put it into negation normal form too
+		guardForm(info, f)
 		// v := E; return v  ->  return E   (v used nowhere else)
 		uses := map[types.Object]int{}
 		ast.Inspect(f, func(n ast.Node) bool {
